@@ -127,7 +127,12 @@ static void gen_queries(Plan &p, Rng &r, int nq)
 	for (int i = 0; i < nq; i++) {
 		int kind = 1 + (int)r.below(3);
 		std::string k0 = sym_target(r, false), k1 = kind == 3 ? sym_target(r, false) : "x";
-		p.op("q", { std::to_string(kind), k0, k1 });
+		if (r.chance(1, 4)) {
+			// two lookups open at once, advanced in turn (the second is often a whole-range scan so that both cross blocks)
+			int kb = r.chance(1, 2) ? 3 : 1 + (int)r.below(3);
+			std::string b0 = sym_target(r, false), b1 = kb == 3 ? (r.chance(1, 2) ? std::string("@end") : sym_target(r, false)) : "x";
+			p.op("q2", { std::to_string(kind), k0, kind == 3 && r.chance(1, 2) ? std::string("@end") : k1, std::to_string(kb), b0, b1, std::to_string(r.next() | 1) });
+		} else p.op("q", { std::to_string(kind), k0, k1 });
 	}
 }
 
